@@ -97,13 +97,25 @@ enum class Err : int { none = 0 };
 template<class T, bool Copyable>
 struct ExpRunner {
 	using F = frg::expected<Err, T>; using S = std::expected<T, Err>;
-	Two<F> f; Two<S> s;
+	Two<F> f; Two<S> s; bool bad = false;
 	void begin() { addrs().add_pseudo(f.store, sizeof f.store, 1001); f.make(1); f.make(2); s.make(1); s.make(2); }
 	bool apply(const Op &o) {
 		int d = o.d, q = 3 - o.d;
 		if(o.name == "default") { f.make(d); s.make(d); }
 		else if(o.name == "value") { f.make(d, T(o.x)); s.make(d, T(o.x)); }
 		else if(o.name == "error") { f.make(d, (Err)o.x); s.make(d, std::unexpected<Err>((Err)o.x)); }
+		else if(o.name == "unwrap" && !s.at(d).has_value()) return false;     // contract violation: not executed
+		else if(o.name == "unwrap") { long long before = value_of(f.at(d).value()); T r = f.at(d).unwrap(); if(value_of(r) != before) bad = true; }
+		else if(o.name == "map") {
+			auto flip = [](T v) { return T(value_of(v) == 1 ? 2 : 1); };
+			if(s.at(q).has_value()) { T nv = flip(std::move(s.at(q).value())); s.make(d, std::move(nv)); } else { Err e = s.at(q).error(); s.make(d, std::unexpected<Err>(e)); }
+			f.make(d, f.at(q).map(flip));
+		}
+		else if(o.name == "map_error") {
+			auto flip = [](Err e) { return (Err)((int)e == 1 ? 2 : 1); };
+			if(s.at(q).has_value()) { T nv = std::move(s.at(q).value()); s.make(d, std::move(nv)); } else { Err e = flip(s.at(q).error()); s.make(d, std::unexpected<Err>(e)); }
+			f.make(d, f.at(q).map_error(flip));
+		}
 		else if(o.name == "move_construct") { f.make(d, std::move(f.at(q))); s.make(d, std::move(s.at(q))); }
 		else if(o.name == "move_assign") { f.at(d) = std::move(f.at(q)); s.at(d) = std::move(s.at(q)); }
 		else if constexpr (Copyable) {
@@ -117,7 +129,11 @@ struct ExpRunner {
 		std::string r = "[";
 		for(int d = 1; d <= 2; d++) {
 			if(d == 2) r += ",";
-			if(!ref) { auto &h = f.at(d); bool ok = (bool)h; r += pair_json(ok ? (h.maybe_error() == Err::none ? 1 : 9) : 2, ok ? value_of(h.value()) : (long long)h.error()); }
+			if(!ref) {
+				auto &h = f.at(d); const auto &ch = h; bool ok = (bool)h;
+				bool same = !ok || &ch.value() == &h.value();
+				r += pair_json(bad || !same ? 9 : (ok ? (h.maybe_error() == Err::none ? 1 : 9) : (h.maybe_error() == h.error() ? 2 : 9)), ok ? value_of(h.value()) : (long long)h.error());
+			}
 			else { auto &h = s.at(d); r += pair_json(h.has_value() ? 1 : 2, h.has_value() ? value_of(h.value()) : (long long)h.error()); }
 		}
 		return r + "]";
